@@ -570,6 +570,26 @@ def centroid_refine(rep, r, n):
         if not (np.array_equal(np.asarray(t['x_centroid']), xs, equal_nan=True)
                 and np.array_equal(np.asarray(t['y_centroid']), ys, equal_nan=True)):
             rep.violation('centroid-refinement', 'find_peaks centroid columns differ from centroid_sources on the peaks', {})
+            continue
+        # with a footprint (which overrides box_size, also for the centroids), an error map and a mask
+        fy, fx = np.mgrid[-3:4, -3:4]
+        fp = (fx ** 2 + fy ** 2) <= r.choice([9.5, 6.5, 12.5])
+        fp[0, 3] = False                                           # not symmetric
+        mask = np.zeros(img.shape, bool)
+        mask[r.randrange(img.shape[0]), r.randrange(img.shape[1])] = True
+        err = np.full(img.shape, 0.5) + 0.01 * np.arange(img.size).reshape(img.shape) % 1.0
+        with warnings.catch_warnings():
+            warnings.simplefilter('ignore')
+            t2 = find_peaks(img, 5.0, box_size=3, footprint=fp, mask=mask, error=err, centroid_func=centroid_com)
+            if t2 is None:
+                continue
+            xs2, ys2 = centroid_sources(img, t2['x_peak'], t2['y_peak'], footprint=fp, mask=mask, error=err, centroid_func=centroid_com)
+        rep.case(('refine-fp', img.tobytes()), True, kind='centroid_func:footprint')
+        rep.probe_only += 1
+        if not (np.array_equal(np.asarray(t2['x_centroid']), xs2, equal_nan=True)
+                and np.array_equal(np.asarray(t2['y_centroid']), ys2, equal_nan=True)):
+            rep.violation('centroid-refinement:footprint', 'find_peaks(footprint=..., centroid_func=...) centroid columns differ from centroid_sources with that '
+                          'footprint on the peaks', {'footprint': fp.astype(int).tolist()})
 
 
 def replay(rep, data):
